@@ -10,6 +10,7 @@ Definition mode_eqb (a b : mode) : bool :=
   match a, b with SERIAL, SERIAL | THREAD, THREAD | PROCESS, PROCESS => true | _, _ => false end.
 
 Definition is_some {X} (o : option X) : bool := match o with Some _ => true | None => false end.
+Definition opt_list {X} (o : option (list X)) : list X := match o with Some l => l | None => nil end.
 Definition lastn {X} (n : nat) (l : list X) : list X := skipn (length l - n) l.     (* l[-n:], 1 <= n *)
 Definition last_opt {X} (l : list X) : option X :=
   match rev l with x :: _ => Some x | [] => None end.                               (* l[-1] *)
